@@ -60,6 +60,7 @@ FAMILIES = (["getitem_at"] * 3 + ["getitem_range"] * 4 + ["getitem"] * 3 + ["toj
 LAZY_OPS = ("len", "type", "formjson", "getitem_range", "field", "fields")      # the property's "only once data are needed"
 CHAIN_OPS = ("getitem_range", "carry", "field")
 BAD_GENERATORS = ("short", "long", "wrong_form")
+NO_DATA_OPS = ("len", "type", "formjson", "form", "purelist")      # answerable from the declarations alone
 LOST = "lost its weak reference"
 
 
@@ -565,6 +566,12 @@ def _run_virtual(case, run):
                                     expected="ValueError", observed=[vk, M.jsonable(vv) if vk == "ok" and vv is not SKIP else vmsg])
                 detected += 1
                 tags.append("mismatch_detected")
+            elif not w0["path"] and vk == "ok" and vv is not SKIP and op not in NO_DATA_OPS:
+                # every element of the array has to come through this generator, which only ever makes a contradicting array and did
+                # not even run in this step: a rejected array has been left visible (in the cache)
+                raise Violation("unenforced:%s|%s" % (gk, op), "%s read data from a VirtualArray without running its generator, although every array "
+                                "that generator makes contradicts the declared %s: a rejected array was left visible" % (op, "form" if gk == "wrong_form" else "length"),
+                                expected="ValueError", observed=[vk, M.jsonable(vv)])
             continue
         # ---- (3) same value and success/error class as the eager twin
         if ckind == "broken" and run.broken and vk == "RuntimeError" and LOST in (vmsg or ""):
